@@ -113,6 +113,12 @@ def ok_blocks(fn):
 def check_uncompressed_lemma(R, F, S, rule, gpath, sub):
     fn = F.fn(gpath)
     an = Analyzer(fn, F, S)
+    # first try the plain proof at the success returns (enough when the loop is written with `break` values, where the
+    # flag-latched and increment facts of E5 carry the bound); the lemma below handles the `while !finished` form
+    direct = e5._prove_at_returns(an, fn, [('down', 'Ok'), ('f', 0)], list(sub), lambda an_, e: [le(lin(c=1), e), le(e, LEN1), le(e, lin(c=255))])
+    if direct:
+        R.require(True, rule, gpath + '|lemma:Ok(n) => 1 <= n <= len(octets) and n <= 255', fn.where(), 'proved directly at the %d success return(s)' % direct, '')
+        return True
     flag, off = local_named(fn, 'finished'), local_named(fn, 'offset')
     oks = ok_blocks(fn)
     good = flag is not None and off is not None and len(oks) == 1
